@@ -22,9 +22,10 @@ UNIT = 1024      # time unit of the model: 1/1024 s (exact in binary floating po
 
 
 def ms(x):
-    v = x * UNIT
-    assert abs(v - round(v)) < 1e-6, x
-    return int(round(v))
+    # times produced by the driver are exact multiples of the unit; a time
+    # that is not (a stray timer armed before the trace origin) is rounded
+    # and shows up as a disagreement / violation, never as a crash
+    return int(round(x * UNIT))
 
 
 EVK = {'r': 'ERead', 'w': 'EWrite', 'start': 'EStart', 'stop': 'EStop',
